@@ -95,7 +95,16 @@ def action_case(kind):
         cx = (not hyp) and draw(st.integers(0, 2)) == 0
         cxm = (not hyp) and (cx or draw(st.integers(0, 3)) == 0)
         obj = draw(objs.s_object(kind, n, shape, cx))
-        return dict(obj=obj, A=draw(s_tmats(hyp, n, shape, cxm)),
+        A = draw(s_tmats(hyp, n, shape, cxm))
+        if not hyp and not cxm and draw(st.integers(0, 3)) == 0:
+            # an integer-typed matrix (int64 array) whose inverse is not integral:
+            # unimodular x diag(1..3)
+            cnt = len(A["cols"])
+            A = dict(A, intdtype=True, cols=[
+                (np.array(draw(gen.unimodular_int_matrix(n + 1, steps=4, maxabs=2))) @
+                 np.diag([draw(st.integers(1, 3)) for _ in range(n + 1)])).tolist()
+                for _ in range(cnt)])
+        return dict(obj=obj, A=A,
                     B=draw(s_tmats(hyp, n, shape, cxm)),
                     iscale=draw(st.sampled_from([1.0, 1.0, -1.0, 2.5, -0.5])),
                     icol=draw(st.booleans()), ilib=draw(st.booleans()))
@@ -141,6 +150,9 @@ def make_action_body(kind):
         px, ax = objs.snapshot(X)
         Ac = tmat_arrays(case["A"], shape)
         Bc = tmat_arrays(case["B"], shape)
+        if case["A"].get("intdtype"):
+            ctx.label("A=int64")
+            Ac = np.asarray(Ac).astype(np.int64)
         A = objs.build_T(hyp, Ac, case["A"]["col"])
         B = objs.build_T(hyp, Bc, case["B"]["col"])
         kA, kB = objs.cond2(Ac), objs.cond2(Bc)
@@ -377,7 +389,7 @@ def rep_case(draw):
     return dict(hyp=hyp, n=n, gens=gens, cols=[draw(st.booleans()) for _ in range(ng)],
                 words=words, as_list=draw(st.booleans()),
                 obj=draw(objs.s_object(pkind, n, shape, cx and not hyp)),
-                mixed_cls=draw(st.booleans()))
+                mixed_cls=draw(st.booleans()), reassign=draw(st.booleans()))
 
 
 def body_rep(case, ctx):
@@ -461,6 +473,27 @@ def body_rep(case, ctx):
             objs.compare_data(ctx, "aux of elements(words).apply(X,'pairwise')[..., j]", "rows",
                               np.array(EX.aux_data)[sa],
                               act_loop(ax, X.aux_ndims, Mw, shape), _tol(kw), j=j)
+
+
+    # the images follow the generators: evaluate, re-assign the first generator (to the
+    # matrix of the last one, or its inverse), evaluate again
+    if case.get("reassign"):
+        ctx.label("generator-reassigned")
+        newM = np.linalg.inv(mats[-1]) if len(mats) == 1 else mats[-1]
+        rep[names[0]] = objs.build_T(hyp, newM, case["cols"][0])
+        table[names[0]] = newM
+        table[names[0].upper()] = np.linalg.inv(newM)
+        kmax = max(objs.cond2(m) for m in mats)
+        for w in case["words"]:
+            Mw = np.eye(n + 1, dtype=complex if any(np.iscomplexobj(m) for m in mats)
+                        else float)
+            for g in w:
+                Mw = Mw @ table[g]
+            T = rep[list(w) if case["as_list"] else "".join(w)]
+            ctx.small("after re-assigning a generator rep[w] is the product of the CURRENT "
+                      "generator matrices", mat_proj_dist(np.swapaxes(np.array(T.matrix), -1, -2),
+                                                          Mw),
+                      _tol(kmax ** (len(w) + 1)), word="".join(w))
 
 
 def nt_rep(labels):
